@@ -57,6 +57,16 @@ type RC interface {
 type Empty interface{}
 
 type NotIface struct{}
+
+// sealed-interface idiom: only types embedding Base (from this package) can implement Sealed
+type Sealed interface {
+	sealed()
+	Name() string
+}
+
+type Base struct{}
+
+func (Base) sealed() {}
 `
 
 const c05SrcU = `package u
@@ -108,19 +118,49 @@ type T7 struct{}
 func (t T7) A(x int) ifs.Named                           { return 0 }
 func (t T7) F(f func(int) string, m map[string]*yy.Named) {}
 
+//«a8»
+type T8 struct {
+	ifs.Base
+}
+
+func (t T8) Name() string { return "" }
+
 var _ = ifs.Named(0)
 var _ yy.Empty
 var _ yaml.M
+`
+
+// a second file of package u with DIFFERENT imports: bindings are per file
+const c05SrcU2 = `package u
+
+import (
+	rd "zzmod/yamlv3"
+)
+
+//«a9»
+type T9 struct{}
+
+func (t T9) Read(p []byte) (int, error) { return 0, nil }
+func (t T9) Do(p *int)                  {}
+
+var _ rd.M
 `
 
 var c05Alts = []string{
 	" @implements ifs.Reader", " @implements &ifs.Reader", " @implements &yy.RC", " @implements ifs.RC", " @implements Local", " @implements &Local",
 	" @implements ifs.Var", " @implements ifs.Sl", " @implements yaml.M", " @implements &yaml.M", " @implements yaml.N", " @implements ifs.Al", " @implements &ifs.Fn",
 	" @implements ifs.Empty", " @implements ifs.Nope", " @implements ifs.NotIface", " @implements nope.Reader", " @implements yamlv3.M", " @implements u.Local", " plain",
+	" @implements ifs.Sealed", " @implements &ifs.Sealed", " @implements rd.M", " @implements &rd.N",
 }
 
 // what Go's type checker says about one annotation spelling on one type: "" (fine), IMPL01, IMPL02 or IMPL03
 func c05GoVerdict(prog *nd.Prog, typeName, alt string) string {
+	// bindings of the file's imports: explicit alias, else the imported package's declared name
+	bound := map[string]string{"ifs": "zzmod/ifs", "yy": "zzmod/ifs", "yaml": "zzmod/yamlv3"}
+	if typeName == "T9" { // declared in the second file, which imports only zzmod/yamlv3 as rd
+		// (the property counts an import as binding both its explicit alias and the package's declared name)
+		bound = map[string]string{"rd": "zzmod/yamlv3", "yaml": "zzmod/yamlv3"}
+	}
 	alt = strings.TrimSpace(alt)
 	if !strings.HasPrefix(alt, "@implements ") {
 		return ""
@@ -132,8 +172,6 @@ func c05GoVerdict(prog *nd.Prog, typeName, alt string) string {
 	if i := strings.Index(spec, "."); i >= 0 {
 		q, name = spec[:i], spec[i+1:]
 	}
-	// bindings of the file's imports: explicit alias, else the imported package's declared name
-	bound := map[string]string{"ifs": "zzmod/ifs", "yy": "zzmod/ifs", "yaml": "zzmod/yamlv3"}
 	path := "zzmod/u"
 	if q != "" {
 		p, ok := bound[q]
@@ -170,7 +208,7 @@ func c05GoVerdict(prog *nd.Prog, typeName, alt string) string {
 // parameters, func/map parameters, embedded interfaces and promotion through an embedded pointer: the reported code on
 // each type equals the verdict of go/types (Implements / scope lookup / import bindings).
 func ZZC05Zoo() {
-	typeNames := []string{"T1", "T2", "T3", "T4", "T5", "T6", "T7"}
+	typeNames := []string{"T1", "T2", "T3", "T4", "T5", "T6", "T7", "T8", "T9"}
 	holes := []nd.Hole{}
 	vals := map[string]string{}
 	nonPlain := 0
@@ -182,7 +220,7 @@ func ZZC05Zoo() {
 		nonPlain += nd.IteInt(nd.HasPrefix(v, " plain"), 0, 1)
 	}
 	nd.Assume(nonPlain <= 1) // stated bound: one annotated type at a time (7 types x 20 spellings)
-	files := []nd.File{{Pkg: "zzmod/yamlv3", Name: "y.go", Src: c05SrcYaml}, {Pkg: "zzmod/ifs", Name: "i.go", Src: c05SrcIfs}, {Pkg: "zzmod/u", Name: "u.go", Src: c05SrcU}}
+	files := []nd.File{{Pkg: "zzmod/yamlv3", Name: "y.go", Src: c05SrcYaml}, {Pkg: "zzmod/ifs", Name: "i.go", Src: c05SrcIfs}, {Pkg: "zzmod/u", Name: "u.go", Src: c05SrcU}, {Pkg: "zzmod/u", Name: "u2.go", Src: c05SrcU2}}
 	prog := nd.LoadProgram(files, holes)
 	res := Analyze(prog, config.Default(), "zzmod/u", Facts{}, "impl")
 	width := 0
@@ -194,12 +232,17 @@ func ZZC05Zoo() {
 	fallback := false
 	for _, tn := range typeNames {
 		fallback = nd.Or(fallback, nd.HasPrefix(vals[tn], " @implements yamlv3.M"))
+
 	}
 	// known finding: a qualifier equal to the last element of an import PATH (not a bound name) is accepted
 	nd.Known("C05/qualifier-path-element-fallback", fallback)
 	var exp []Expect
 	for i, tn := range typeNames {
-		line := nd.LineOf(c05SrcU, "type "+tn+" struct")
+		file, fsrc := "/zz/zzmod/u/u.go", c05SrcU
+		if tn == "T9" {
+			file, fsrc = "/zz/zzmod/u/u2.go", c05SrcU2
+		}
+		line := nd.LineOf(fsrc, "type "+tn+" struct")
 		_ = i
 		for _, code := range []string{"IMPL01", "IMPL02", "IMPL03"} {
 			cond := false
@@ -212,7 +255,7 @@ func ZZC05Zoo() {
 					cond = nd.Or(cond, vals[tn] == padded)
 				}
 			}
-			exp = append(exp, Expect{"/zz/zzmod/u/u.go", line, code, cond})
+			exp = append(exp, Expect{file, line, code, cond})
 		}
 	}
 	CheckExact(res.Diags, exp, "C05 verdict agrees with go/types")
